@@ -46,6 +46,10 @@ def pad2 (i : Nat) : String := if i < 10 then s!"0{i}" else toString i
 def anameStr (a : AName) : String :=
   nameStr a.base ++ String.join (a.idx.map (fun i => "_" ++ pad2 i))
 
+def fhex (n : Nat) : String := if F64.isNaN n then "nan" else
+  let ds := (Nat.toDigits 16 n)
+  String.ofList (List.replicate (16 - ds.length) '0' ++ ds)
+
 def hex16 (n : Nat) : String :=
   let ds := (Nat.toDigits 16 n)
   String.ofList (List.replicate (16 - ds.length) '0' ++ ds)
@@ -128,8 +132,13 @@ def rbytes (r : R Bytes) : String := match r with | .ok b => "ok " ++ hexOrDash 
 
 def protoStr : Proto → String | .ubx => "ubx" | .nmea => "nmea" | .rtcm => "rtcm"
 
+/-- errors are printed as the exception type the real reader reports -/
 def ekindStr : EKind → String
-  | .stream => "stream" | .unknownHdr => "hdr" | .rejected p c => s!"rej:{protoStr p}:{c}"
+  | .stream => "UBXStreamError"
+  | .unknownHdr => "UBXParseError"
+  | .rejected .ubx c => toString (Exc.ofCode c)
+  | .rejected .nmea c => s!"N{c}"
+  | .rejected .rtcm c => s!"R{c}"
 
 def outStr : Out String → String
   | .eof => "eof"
@@ -278,6 +287,30 @@ def handle (line : String) : String :=
            run sockSrc hdr cfg O fuel (some (sockInit (splitChunks s lens)))
        " ".intercalate (tr.map outStr)
      | none => "bad-op")
+  | "readp" :: src :: q :: filter :: parsing :: mode :: val :: bf :: h :: verdicts =>
+    (match unhex h with
+     | some s =>
+       let cfg : RCfg := ⟨toNatD filter, parsing = "1"⟩
+       let O := mkOracle (toNatD mode) (toNatD val) (bf = "1") (parseVerdicts verdicts)
+       let hdr : Byte → Bool := fun b => Gen.ctx.nmeaHdr2.contains b
+       let fuel := s.length + 2
+       let r : PRes String :=
+         if src = "file" then runP fileSrc hdr cfg O (toNatD q) fuel (some s)
+         else
+           let lens := ((src.drop 5).toString.splitOn ",").filter (· ≠ "") |>.map toNatD
+           runP sockSrc hdr cfg O (toNatD q) fuel (some (sockInit (splitChunks s lens)))
+       let its := " ".intercalate (r.items.map (fun (p, raw, m) => s!"{protoStr p}:{hexOf raw}:{m.getD "None"}"))
+       let calls := ",".intercalate (r.calls.map ekindStr)
+       let raised := match r.raised with | some k => ekindStr k | none => "none"
+       let crashed := match r.crashed with | some (p, c) => s!"{protoStr p}:{c}" | none => "none"
+       s!"items=[{its}] calls=[{calls}] raised={raised} crashed={crashed}"
+     | none => "bad-op")
+  | ["frames", h] =>
+    (match unhex h with
+     | some s =>
+       let hdr : Byte → Bool := fun b => Gen.ctx.nmeaHdr2.contains b
+       " ".intercalate ((frames fileSrc hdr (s.length + 2) (some s)).map (fun (p, raw) => s!"{protoStr p}:{hexOf raw}"))
+     | none => "bad-op")
   | ["sockread", lens, ops, h] =>
     -- exercise SocketWrapper.read / readline directly: ops = comma list of n (read n) or L (readline)
     (match unhex h with
@@ -298,14 +331,14 @@ def handle (line : String) : String :=
              | .short => go os none ("short" :: acc)
        " ".intercalate (go ((ops.splitOn ",").filter (· ≠ "")) (some st0) [])
      | none => "bad-op")
-  | ["f64", "mul", a, b] => hex16 (F64.mul (toNatD a) (toNatD b))
-  | ["f64", "div", a, b] => (match F64.div (toNatD a) (toNatD b) with | some q => hex16 q | none => "zerodiv")
-  | ["f64", "add", a, b] => hex16 (F64.add (toNatD a) (toNatD b))
-  | ["f64", "round12", a] => hex16 (F64.round12 (toNatD a))
+  | ["f64", "mul", a, b] => fhex (F64.mul (toNatD a) (toNatD b))
+  | ["f64", "div", a, b] => (match F64.div (toNatD a) (toNatD b) with | some q => fhex q | none => "zerodiv")
+  | ["f64", "add", a, b] => fhex (F64.add (toNatD a) (toNatD b))
+  | ["f64", "round12", a] => fhex (F64.round12 (toNatD a))
   | ["f64", "ofint", a] => (match F64.ofInt (toIntD a) with | some q => hex16 q | none => "overflow")
   | ["f64", "trunc", a] => (match F64.trunc (toNatD a) with | .ok q => toString q | .error e => toString e)
   | ["f64", "tof32", a] => (match F64.toF32 (toNatD a) with | some q => toString q | none => "overflow")
-  | ["f64", "off32", a] => hex16 (F64.ofF32 (toNatD a))
+  | ["f64", "off32", a] => fhex (F64.ofF32 (toNatD a))
   | ["scaleup", ty, sc, h] =>
     -- round(bytes2val(h, ty) * sc, 12)
     (match unhex h, parseVal sc with
